@@ -246,6 +246,7 @@ type PathResult struct {
 	MaxDepth int               `json:"maxdepth,omitempty"`
 	Steps    int64             `json:"steps,omitempty"`
 	GlobalWrites []string      `json:"gw,omitempty"`
+	ForkSites map[string]int       `json:"forksites,omitempty"`
 }
 
 type obsRec struct {
@@ -335,6 +336,17 @@ func (e *Engine) RunPath(fn *ssa.Function, item WorkItem) (res PathResult) {
 	res.Inputs = X.witnessInputs(X.ev)
 	res.Trail = append([]Dec(nil), X.trail...)
 	res.NewItems = X.NewItems
+	if SiteDebug {
+		res.ForkSites = map[string]int{}
+		for _, it := range X.NewItems {
+			site := it.Prefix[len(it.Prefix)-1].Site
+			nm := SiteNames[site]
+			if nm == "" {
+				nm = SiteNames[site/31] + fmt.Sprintf(" (salted %d)", site)
+			}
+			res.ForkSites[nm]++
+		}
+	}
 	res.Viol = X.Viol
 	for k := range X.Reach {
 		res.Reach = append(res.Reach, k)
